@@ -193,13 +193,28 @@ Fixpoint pokes (m : vmode) (st : vstate) (addr : Z) (bs : list Z) : vstate :=
   | b :: r => pokes m (poke m st addr b) (addr + 1) r
   end.
 
+(* ---- the BSAVE / BLOAD statements (machine.Memory.bsave_ / bload_): a memory image file records the segment
+   (DEF SEG) and offset it was saved from; BLOAD "f",offset loads at the recorded segment and the given offset,
+   BLOAD "f" at the recorded segment and offset (the regenerated vmem_bload_glue / vmem_bload_addr) *)
+Record mfile : Type := mk_mfile { mf_seg : Z; mf_off : Z; mf_data : list Z }.
+Definition bsave_stmt (m : vmode) (st : vstate) (seg off n : Z) : mfile :=
+  mk_mfile seg off (get_block m st (seg * 16 + off) n).
+Definition bload_target (hseg hoff : Z) (o : option Z) : Z :=
+  let '(seg, offset) :=
+    vmem_bload_glue hseg hoff (match o with Some x => x | None => 0 end)
+                    (match o with Some _ => false | None => true end) in
+  vmem_bload_addr seg offset.
+Definition bload_stmt (m : vmode) (st : vstate) (f : mfile) (o : option Z) : vstate :=
+  set_block m st (bload_target (mf_seg f) (mf_off f) o) (mf_data f).
+
 (* ---- harness driver: a session is a list of operations on an initial state given by formulas *)
 Inductive vop : Type :=
 | OpPeek (addr : Z)
 | OpPoke (addr b : Z)
-| OpBsave (addr n : Z)
-| OpBload (addr : Z) (bs : list Z)
-| OpBloadGen (addr seed n : Z)         (* generated data, see gen_bytes *)
+| OpBsave (seg off n : Z)                               (* the file is kept, see OpBloadFile *)
+| OpBload (hseg hoff : Z) (o : option Z) (bs : list Z)  (* a file with header (hseg, hoff) written by the harness *)
+| OpBloadGen (hseg hoff : Z) (o : option Z) (seed n : Z)  (* generated data, see gen_bytes *)
+| OpBloadFile (idx : Z) (o : option Z)                  (* the file of the idx-th BSAVE of the session *)
 | OpPlane (v : Z)                      (* OUT &h3CF, v *)
 | OpMask (v : Z).                      (* OUT &h3C5, v *)
 
@@ -219,20 +234,25 @@ Definition report (l : list Z) : list Z := if zlen l <=? 48 then l else [zlen l;
 
 (* POKE checks its value (error.range_check(0, 255, val)): Illegal function call; the session stops there.
    result: state, output, false if stopped by an error *)
-Fixpoint run_ops (m : vmode) (st : vstate) (ops : list vop) : vstate * list Z * bool :=
+Fixpoint run_ops (m : vmode) (st : vstate) (files : list mfile) (ops : list vop) : vstate * list Z * bool :=
   match ops with
   | [] => (st, [], true)
   | op :: r =>
       match op with
       | OpPoke a b =>
           if (b <? 0) || (255 <? b) then (st, [-1; 5], false)
-          else run_ops m (poke m st a b) r
-      | OpPeek a => let '(st2, out2, ok) := run_ops m st r in (st2, peek m st a :: out2, ok)
-      | OpBsave a n => let '(st2, out2, ok) := run_ops m st r in (st2, report (get_block m st a n) ++ out2, ok)
-      | OpBload a bs => run_ops m (set_block m st a bs) r
-      | OpBloadGen a seed n => run_ops m (set_block m st a (gen_bytes seed n)) r
-      | OpPlane v => run_ops m (mk_vstate (vs_px st) (vs_ch st) (vs_at st) v (vs_mask st)) r
-      | OpMask v => run_ops m (mk_vstate (vs_px st) (vs_ch st) (vs_at st) (vs_plane st) v) r
+          else run_ops m (poke m st a b) files r
+      | OpPeek a => let '(st2, out2, ok) := run_ops m st files r in (st2, peek m st a :: out2, ok)
+      | OpBsave seg off n =>
+          let f := bsave_stmt m st seg off n in
+          let '(st2, out2, ok) := run_ops m st (files ++ [f]) r in (st2, report (mf_data f) ++ out2, ok)
+      | OpBload hseg hoff o bs => run_ops m (bload_stmt m st (mk_mfile hseg hoff bs) o) files r
+      | OpBloadGen hseg hoff o seed n =>
+          run_ops m (bload_stmt m st (mk_mfile hseg hoff (gen_bytes seed n)) o) files r
+      | OpBloadFile idx o =>
+          run_ops m (bload_stmt m st (nth (Z.to_nat idx) files (mk_mfile 0 0 [])) o) files r
+      | OpPlane v => run_ops m (mk_vstate (vs_px st) (vs_ch st) (vs_at st) v (vs_mask st)) files r
+      | OpMask v => run_ops m (mk_vstate (vs_px st) (vs_ch st) (vs_at st) (vs_plane st) v) files r
       end
   end.
 
@@ -242,5 +262,5 @@ Definition probe (m : vmode) (st : vstate) (pr : Z * Z * Z) : list Z :=
   let '(p, a, b) := pr in
   if vm_kind m =? 3 then [vs_ch st p a b; vs_at st p a b] else [vs_px st p a b].
 Definition run_case (m : vmode) (seed range : Z) (ops : list vop) (probes : list (Z * Z * Z)) : list Z :=
-  let '(st, out, ok) := run_ops m (init_state seed range) ops in
+  let '(st, out, ok) := run_ops m (init_state seed range) [] ops in
   if ok then out ++ flat_map (probe m st) probes else out.
